@@ -98,7 +98,13 @@ pub fn single_chunk(body: &[u8], filters: &[FilterSpec], headers: &[(String, Str
     run_schedule(body, filters, headers, &[body.len()])
 }
 
+/// upper bound on the states explored for one (body, filters, headers) case: on the unchanged library a
+/// case has a few hundred; a defect that makes every partition produce a different opaque state would
+/// otherwise exhaust memory. The outputs found up to the cap are still judged.
+pub const MAX_STATES_PER_CASE: u64 = 30_000;
+
 pub struct Explored {
+    pub capped: bool,
     pub states: u64,
     pub transitions: u64,
     /// distinct total outputs at end of stream -> a shortest history (fewest chunks) producing it
@@ -127,7 +133,7 @@ fn replay(body: &[u8], filters: &[FilterSpec], headers: &[(String, String)], his
 pub fn explore(body: &[u8], filters: &[FilterSpec], headers: &[(String, String)], empty_chunks: bool, merge: bool) -> Explored {
     let mut seen: HashSet<String> = HashSet::new();
     let mut queue: VecDeque<Node> = VecDeque::new();
-    let mut ex = Explored { states: 0, transitions: 0, finals: BTreeMap::new(), max_chunks: 0, keys: HashSet::new() };
+    let mut ex = Explored { capped: false, states: 0, transitions: 0, finals: BTreeMap::new(), max_chunks: 0, keys: HashSet::new() };
     let (f0, _) = replay(body, filters, headers, &[]);
     let k0 = format!("0|[]|{f0:?}");
     seen.insert(k0);
@@ -142,6 +148,11 @@ pub fn explore(body: &[u8], filters: &[FilterSpec], headers: &[(String, String)]
             ex.transitions += 1;
             ex.max_chunks = ex.max_chunks.max(node.history.len());
             ex.finals.entry(out).or_insert_with(|| node.history.clone());
+        }
+        if ex.states > MAX_STATES_PER_CASE {
+            // keep draining the queue for end-of-stream states only
+            ex.capped = true;
+            continue;
         }
         let start = if empty_chunks { 0 } else { 1 };
         for k in start..=remaining {
